@@ -214,8 +214,11 @@ class IbaqSuite(MapSuite):
             d = digest.get_num_ibaq_peptides_per_protein(files, [mk_params(p) for p in case["params"]])
         except Exception as e:
             return {"raise": gens.exn_name(e), "msg": str(e)[:100]}
-        prots = sorted(d)
-        return {"prots": prots, "ok": [int(d[p]) for p in prots]}
+        # the proteins asked about are those of the result AND every record identifier of every file (and its decoy): a protein the
+        # tool forgot must show up as a number that differs from the model's
+        ids = {ln[1:].split(" ")[0] for t in case["texts"] for ln in t.splitlines() if ln.startswith(">") and len(ln) > 1 and ln[1] != " "}
+        prots = sorted(set(d) | ids | {"REV__" + i for i in ids})
+        return {"prots": prots, "ok": [int(d.get(p, 0)) for p in prots]}
 
     def render_in(self, case):
         return None
